@@ -1005,4 +1005,99 @@ Section Bridge.
     destruct (vset re_match e (FSet true (Some g) sz) v) as [nf|ex] eqn:E; cbn [bind]; [|reflexivity].
     apply Hfix. reflexivity.
   Qed.
+  (* ---------------------------------------------------------------- Map.__set__ *)
+
+  Lemma key_value_names_differ : forall n, pystr_eqb (n ++ s2p "_key") (n ++ s2p "_value") = false /\
+                                            pystr_eqb (n ++ s2p "_value") (n ++ s2p "_key") = false.
+  Proof.
+    induction n as [|c n IH]; [split; reflexivity|]. cbn [app pystr_eqb]. rewrite N.eqb_refl. exact IH.
+  Qed.
+
+  Definition conv_pair (rec : nat -> pyval -> res pyval) (p : pyval * pyval) : res (pyval * pyval) :=
+    k' <- rec 0%nat (fst p) ;; v' <- rec 1%nat (snd p) ;; Ok (k', v').
+
+  (* every key converted before the first failure can be hashed *)
+  Fixpoint conv_keys_hashable (rec : nat -> pyval -> res pyval) (kv : list (pyval * pyval)) : bool :=
+    match kv with
+    | [] => true
+    | p :: t => match conv_pair rec p with
+                | Ok (k', _) => py_hashable' k' && conv_keys_hashable rec t
+                | Raise _ => true
+                end
+    end.
+
+  Lemma map_loop (rec : nat -> pyval -> res pyval) (nm : names) :
+    name_ok (nm 0%nat) = true -> pystr_eqb (nm 1%nat) (nm 0%nat) = false ->
+    forall kv k_after val d,
+      conv_keys_hashable rec kv = true ->
+      match mapM (conv_pair rec) kv with
+      | Ok prs =>
+          Src_Map_set_loop1 re_match rec (OFld 0) (OFld 1) k_after (map (fun p => (OVal (fst p), OVal (snd p))) kv)
+            val (OVal (PDict d)) nm
+          = k_after (match kv with [] => val | _ :: _ => OVal (PDict (dict_of_pairs d prs)) end)
+                    (OVal (PDict (dict_of_pairs d prs))) nm
+      | Raise x =>
+          Src_Map_set_loop1 re_match rec (OFld 0) (OFld 1) k_after (map (fun p => (OVal (fst p), OVal (snd p))) kv)
+            val (OVal (PDict d)) nm = Raise x
+      end.
+  Proof.
+    intros Hn Hne. induction kv as [|[k v] kv IH]; intros k_after val d Hh; cbn [mapM map Src_Map_set_loop1 fst snd].
+    - reflexivity.
+    - cbn [conv_keys_hashable] in Hh. unfold conv_pair at 1. unfold conv_pair at 1 in Hh. cbn [fst snd] in *.
+      sx2. cbn [co_field_set]. rewrite scratch0_validating.
+      destruct (rec 0%nat k) as [k'|ex]; cbn [bind] in *; [|reflexivity].
+      rewrite validating_set by exact Hn. rewrite scratch0_validating.
+      destruct (rec 1%nat v) as [v'|ex]; cbn [bind] in *; [|reflexivity].
+      apply andb_true_iff in Hh. destruct Hh as [Hh1 Hh2].
+      sx2. rewrite (alist_get_set_other _ _ _ _ Hne). rewrite alist_get_set_same. sx2.
+      cbn [co_setitem co_val bind py_setitem]. rewrite Hh1. cbn [bind].
+      specialize (IH k_after (OVal (PDict (dict_set d k' v'))) (dict_set d k' v') Hh2).
+      destruct kv as [|p2 kv2].
+      + cbn [mapM bind dict_of_pairs] in *. exact IH.
+      + destruct (mapM (conv_pair rec) (p2 :: kv2)) as [prs|ex]; cbn [bind dict_of_pairs]; exact IH.
+  Qed.
+
+  Definition map_keys_ok (kf vf : field) (v : pyval) : bool :=
+    match v with PDict kv => conv_keys_hashable (rec_of [kf; vf]) kv | _ => true end.
+
+  Theorem generated_map_kv : forall kf vf sz u a im name nm iattrs v,
+      name_ok name = true -> map_keys_ok kf vf v = true ->
+      set_result (Src_Map_set re_match (rec_of [kf; vf]) nm (coll_self name (OFlds [0; 1]%nat) sz u a im) (OObj KInst iattrs) (OVal v))
+      = vset re_match e (FMapKV kf vf sz) v.
+  Proof.
+    intros kf vf sz u a im name nm iattrs v Hn Hh.
+    unfold Src_Map_set.
+    destruct v; try reflexivity.
+    cbn [co_isinstance co_isinstance1 isinstance1 bind py_not negb vset].
+    sx2. rewrite validate_size_self, generated_validate_size_dict.
+    destruct (size_check sz (lenZ kv)) as [[]|x1]; cbn [bind]; [|reflexivity].
+    sx2. cbn [nth_fld Z.ltb Z.leb orb Z.to_nat nth_error length Z.of_nat Z.compare Pos.compare Pos.compare_cont Pos.of_succ_nat Pos.succ].
+    change (Pos.to_nat 1) with 1%nat. cbn [nth_error bind]. sx2.
+    cbn [co_call co_dict_items co_val py_dict_items bind].
+    set (nm2 := nm_set (nm_set nm 0 (name ++ s2p "_key")) 1 (name ++ s2p "_value")).
+    assert (Hn0 : name_ok (nm2 0%nat) = true) by (apply name_ok_app; exact Hn).
+    assert (Hne : pystr_eqb (nm2 1%nat) (nm2 0%nat) = false) by (apply key_value_names_differ).
+    match goal with
+    | |- context [Src_Map_set_loop1 _ _ _ _ ?ka _ ?val _ _] =>
+        pose proof (map_loop (rec_of [kf; vf]) nm2 Hn0 Hne kv ka val [] Hh) as H
+    end.
+    change (conv_pair (rec_of [kf; vf])) with
+        (fun p : pyval * pyval => k' <- vset re_match e kf (fst p) ;; v' <- vset re_match e vf (snd p) ;; Ok (k', v')) in H.
+    destruct kv as [|p0 kv0].
+    - cbn [mapM map] in *. rewrite H. sx2. reflexivity.
+    - destruct (mapM (fun p : pyval * pyval => k' <- vset re_match e kf (fst p) ;; v' <- vset re_match e vf (snd p) ;; Ok (k', v')) (p0 :: kv0))
+        as [prs|ex]; cbn [bind]; rewrite H; [sx2|]; reflexivity.
+  Qed.
+
+  Theorem generated_map_any : forall (rec : nat -> pyval -> res pyval) sz u a im name nm iattrs v,
+      set_result (Src_Map_set re_match rec nm (coll_self name (OVal PNone) sz u a im) (OObj KInst iattrs) (OVal v))
+      = vset re_match e (FMapAny sz) v.
+  Proof.
+    intros rec sz u a im name nm iattrs v.
+    unfold Src_Map_set.
+    destruct v; try reflexivity.
+    cbn [co_isinstance co_isinstance1 isinstance1 bind py_not negb vset].
+    sx2. rewrite validate_size_self, generated_validate_size_dict.
+    destruct (size_check sz (lenZ kv)) as [[]|x1]; cbn [bind]; reflexivity.
+  Qed.
 End Bridge.
